@@ -40,30 +40,17 @@ def split_file(path, n, workdir, name):
 
 
 def validate(ctx, records, tag, groups=16):
+    """C02Trace over the recorded expressions; the canaries are built inside the specification (C02Trace!CanaryRecs,
+    from Grammar's constructors) - nothing the parser under test produced enters them - and an accepted canary is a
+    deferred fault: violations found in the same run are reported first."""
     d = os.path.join(ctx.work, "tr_%s" % tag)
     os.makedirs(d, exist_ok=True)
     prefix = "traces_%s_" % tag
     outs = [open(os.path.join(d, "%s%d.ndjson" % (prefix, g)), "w") for g in range(groups)]
     n = 0
-    src = None
     for r in records:
         outs[n % groups].write(json.dumps(r) + "\n")
         n += 1
-        t = r["tree"]
-        if src is None and t.get("k") == "infix" and t["left"].get("k") == "infix" and t["right"].get("k") in ("ident", "string") \
-                and t["op"] not in ("+", "juxt") and t["left"]["op"] not in ("+", "juxt") and t["left"]["op"] != t["op"]:
-            src = r
-    if src is None:
-        raise MachineryFault("no record to derive canaries from")
-    # canary 1: operands swapped (not the written order); canary 2: regrouped to the right without parentheses
-    c1 = json.loads(json.dumps(src)); c1["id"] = "canary-order"
-    c1["tree"]["left"], c1["tree"]["right"] = c1["tree"]["right"], c1["tree"]["left"]
-    c2 = json.loads(json.dumps(src)); c2["id"] = "canary-grouping"
-    t = c2["tree"]
-    c2["tree"] = {"k": "infix", "op": t["left"]["op"], "left": t["left"]["left"],
-                  "right": {"k": "infix", "op": t["op"], "left": t["left"]["right"], "right": t["right"]}}
-    for i, c in enumerate((c1, c2)):
-        outs[(n + i) % groups].write(json.dumps(c) + "\n")
     for o in outs:
         o.close()
     res = ctx.tlc("C02Trace", extra_files=[o.name for o in outs], defines={"TracePrefix": '"%s"' % prefix, "Groups": str(groups)},
@@ -71,17 +58,70 @@ def validate(ctx, records, tag, groups=16):
     if res.violated:
         raise MachineryFault("C02Trace reported %s" % res.violated)
     verdicts = {}
+    nverd = 0
     for line in open(res.beh_path):
         v = json.loads(line)
         verdicts[v["id"]] = v
-    if len(verdicts) != n + 2:
-        raise MachineryFault("C02Trace gave %d verdicts for %d records" % (len(verdicts), n + 2))
-    if verdicts["canary-order"]["renders"]:
-        raise MachineryFault("canary-order accepted by C02Trace (validator is vacuous)")
-    v2 = verdicts["canary-grouping"]
-    if v2["grouped"] and v2["pratt"]:
-        raise MachineryFault("canary-grouping accepted by C02Trace (validator is vacuous)")
+        nverd += 1
+    spec_side = {k: v for k, v in verdicts.items() if k.startswith(("control-", "canary-order-", "canary-grouping-"))}
+    if nverd - len(spec_side) != n or len(verdicts) != nverd:
+        raise MachineryFault("C02Trace gave %d verdicts (%d distinct ids, %d spec-side) for %d records" % (nverd, len(verdicts), len(spec_side), n))
+    kinds = {"control": 0, "canary-order": 0, "canary-grouping": 0}
+    for k, v in spec_side.items():
+        kind = k.rsplit("-", 1)[0]
+        kinds[kind] += 1
+        if kind == "control" and not (v["renders"] and v["grouped"] and v["pratt"]):
+            ctx.defer_fault("C02Trace rejects a tree of the specification with its own rendering (%s: %s)" % (k, v))
+        if kind == "canary-order" and v["renders"]:
+            ctx.defer_fault("%s accepted by C02Trace (renders is vacuous)" % k)
+        if kind == "canary-grouping" and (v["grouped"] or v["pratt"]):
+            ctx.defer_fault("%s accepted by C02Trace (grouped / pratt is vacuous): %s" % (k, v))
+    if min(kinds.values()) < 3:
+        ctx.defer_fault("C02Trace printed too few spec-side canaries: %s" % kinds)
+    ctx.notes["trace_canaries"] = kinds
     return verdicts
+
+
+def pair_coverage(ctx, beh_path):
+    """Vacuity guard on the generator: which <<parent operator, child operator, side>> pairs stand un-parenthesised in
+    the printed expression cases, per context, against the set the specification prints (GrammarMC!RequiredPairs)."""
+    required = None
+    seen = {}
+
+    def walk(t, ctxname):
+        if isinstance(t, dict):
+            if t.get("k") == "infix":
+                for side in ("left", "right"):
+                    ch = t[side]
+                    if isinstance(ch, dict) and ch.get("k") == "infix":
+                        seen.setdefault(ctxname, set()).add((t["op"], ch["op"], side))
+            for v in t.values():
+                walk(v, ctxname)
+        elif isinstance(t, list):
+            for v in t:
+                walk(v, ctxname)
+    for line in open(beh_path):
+        if '"fam":"required-pairs"' in line:
+            required = json.loads(line)
+        elif '"fam":"expr"' in line:
+            c = json.loads(line)
+            walk(c["tree"], c["ctx"])
+    if required is None:
+        ctx.defer_fault("GrammarMC did not print its required operator pairs")
+        return
+    req = {tuple(p) for p in required["pairs"]}
+    levels = required["levels"]
+    missing = {cx: sorted(req - seen.get(cx, set())) for cx in required["ctxs"]}
+    adjacent = sorted(p for p in req if abs(levels[p[1]] - levels[p[0]]) == 1)
+    ctx.notes["operator_pairs"] = {
+        "required_per_context": len(req), "adjacent_level_pairs": len(adjacent),
+        "covered": {cx: len(req & seen.get(cx, set())) for cx in required["ctxs"]},
+        "missing": {cx: ["%s over %s (%s)" % p for p in m] for cx, m in missing.items() if m},
+        "adjacent_covered_in_every_context": ["%s>%s:%s" % (p[0], p[1], p[2][0].upper()) for p in adjacent
+                                              if all(p in seen.get(cx, set()) for cx in required["ctxs"])],
+    }
+    if any(missing.values()):
+        ctx.defer_fault("the generated expressions do not cover every un-parenthesised operator pair: %s" % ctx.notes["operator_pairs"]["missing"])
 
 
 def run(ctx):
@@ -121,31 +161,37 @@ def run(ctx):
     fams = '{"pairs", "atoms", "stmts", "decls"}' if quick else '{"pairs", "atoms", "stmts", "decls", "triples"}'
     gm, lead1 = tlc_with_lead(ctx, "GrammarMC", "GrammarMC.cfg", "GrammarEmit.cfg",
                               {"Full": "FALSE" if quick else "TRUE", "Families": fams}, "grammar-model")
-    ctx.notes["grammar_cases"] = gm.behaviours
+    ctx.notes["grammar_cases"] = gm.behaviours - 1
     if gm.behaviours == 0:
         raise MachineryFault("GrammarMC printed no case (dead driver)")
-    # canary: one expected tree corrupted (two different operands / operators swapped) must be reported by the replay
+    pair_coverage(ctx, gm.beh_path)
+    # canary of the comparison: an expected tree of the specification and a corrupted copy of it (&& and || swapped) go
+    # through the harness's comparator as the two sides - no parse takes part, so the code under test cannot affect it
     canary_line = None
     for line in open(gm.beh_path):
         if '"fam":"expr"' in line and '"op":"&&"' in line and '"op":"||"' in line:
             c = json.loads(line)
+            c["twin"] = c["tree"]
             s = json.dumps(c["tree"]).replace('"op": "&&"', '"op": "@@"').replace('"op": "||"', '"op": "&&"').replace('"op": "@@"', '"op": "||"')
             c["tree"] = json.loads(s)
             c["fam"] = "canary"
             canary_line = json.dumps(c)
             break
     if canary_line is None:
-        raise MachineryFault("no case to derive the replay canary from")
+        ctx.defer_fault("no case to derive the comparison canary from")
     allb = os.path.join(ctx.work, "grammar_cases.jsonl")
     model_bad = 0
     with open(allb, "w") as out:
         for line in open(gm.beh_path):
+            if '"fam":"required-pairs"' in line:
+                continue
             out.write(line)
             if '"pratt":false' in line or '"dispatch":false' in line:
                 model_bad += 1
     shards, total = split_file(allb, nshards, ctx.work, "gr")
-    with open(shards[0], "a") as f:
-        f.write(canary_line + "\n")
+    if canary_line is not None:
+        with open(shards[0], "a") as f:
+            f.write(canary_line + "\n")
 
     def one(i):
         return ctx.harness(BIN, ["replay", "-prefix", "g%d_" % i], stdin_path=shards[i], out_name="gr_res_%02d.jsonl" % i)
@@ -172,7 +218,7 @@ def run(ctx):
             if r["class"]["fam"] == "canary":
                 canary_seen += 1
                 if not any(m.get("obs") == "tree" for m in r.get("mismatch") or []):
-                    raise MachineryFault("the replay accepted a corrupted expected tree (comparison is vacuous)")
+                    ctx.defer_fault("the harness's comparator accepted a corrupted expected tree (comparison is vacuous)")
                 continue
             fam_counts[r["class"]["fam"]] = fam_counts.get(r["class"]["fam"], 0) + 1
             if not r["class"]["model_ok"] and not r.get("mismatch"):
@@ -183,8 +229,8 @@ def run(ctx):
             if r.get("mismatch"):
                 reproduced += 1
             ctx.add_result(r)
-    if canary_seen != 2:
-        raise MachineryFault("replay canary not seen")
+    if canary_seen != 1 and canary_line is not None:
+        ctx.defer_fault("comparison canary not seen")
     for r in ctx.read_results(lres):
         if r.get("mismatch"):
             reproduced += 1
